@@ -79,6 +79,8 @@ CORPUS = [
     ("pp-8bit-macro", H + "#define CLS(n, a,b) n =\x9eglyphid(a..b)\ntable(glyph) CLS(cA, 3, 6); CLS(cB, 7, 10); endtable;\n" + OKRULE, None, {}),
     ("pp-unterminated-if", H + "#if 1\n" + G + OKRULE, None, {}),
     ("pp-unterminated-comment", H + G + OKRULE + "/* never closed\n", None, {}),
+    ("slotref-beyond-rule-with-optional", H + G + "table(sub) [cA cB]? cC > @32768 @2 cC {user1 = 3}; endtable;\n", None, {}),
+    ("unicode-range-beyond-10ffff", H + "table(glyph) cA = glyphid(3..6); cB = glyphid(7..10); cD = unicode(0x61..2147483648); endtable;\n" + OKRULE, None, {}),
     ("zero-extent-glyph-collision", None, None, {"special": "zero-extent"}),
 ]
 
@@ -301,7 +303,7 @@ def run(tier, seed, replay=None):
                 continue
         if opt.get("family"):
             font = ttf.simple_font(40, family=opt["family"])[0]
-        res = rn.run_case("corpus-" + name, gdl.encode("latin-1"), font, argv, "scale-corpus" if "ffff" in name or "pass" in name else "corpus")
+        res = rn.run_case("corpus-" + name, gdl.encode("latin-1"), font, argv, "scale-corpus" if "ffff" in name or "pass" in name or "unicode-range" in name else "corpus")
         rn.account(res)
     ncorpus = len(CORPUS)
 
